@@ -272,6 +272,22 @@ def db_chunk(sps):
     return out
 
 
+def manyvars_chunk(args):
+    """twelve variables declared in numeric order, a lemma over ph2 and ph10 (whose names sort the other way round)"""
+    layout, swap = args
+    out = {'evals': 1, 'databases': 1, 'slices': 0, 'viol': []}
+    st, _ = mmgen.many_vars_database(layout, swap, with_lemma=True)
+    mmref.verify_db(st)
+    desc = {'family': 'twelve variables', 'layout': layout, 'swap': swap, 'lemmas': ['L11']}
+    v, db = roundtrip(mmref.write_db(st), desc)
+    out['viol'] += v
+    if db is not None:
+        v, n = slices(db, desc, st)
+        out['viol'] += v
+        out['slices'] += n
+    return out
+
+
 def shipped_chunk(name):
     path = common.REPO / 'generation' / 'mm-benchmarks' / name
     text = path.read_text()
@@ -384,6 +400,13 @@ def main(argv=None) -> int:
                               f'database #{i} parsed/printed/sliced after {list(seq[:pos])} in the same process gives {dg}, alone {alone.get(i)}')
     sp = specs(thorough)
     for out in par.pmap(db_chunk, par.chunks(sp, common.ncpu() * 4)):
+        for k, v in out.items():
+            if k == 'viol':
+                for sig, d, what in v:
+                    chk.violation(sig, {'signature': sig, 'case': d}, what)
+            else:
+                agg[k] = agg.get(k, 0) + v
+    for out in par.pmap(manyvars_chunk, [(layout, swap) for layout in ('none', 'all') for swap in (False, True)]):
         for k, v in out.items():
             if k == 'viol':
                 for sig, d, what in v:
